@@ -16,6 +16,7 @@ mod part1;
 mod part2;
 mod part3;
 mod sandbox;
+mod scale;
 
 use damage::Damage;
 use part1::{CreateCase, ExtractOpts, InFile, LibCase, NameSel};
@@ -153,6 +154,10 @@ fn replay(check: &Check, tps: &[Template], p: &std::path::Path) {
             let case: LibCase = serde_json::from_value(c["case"].clone()).expect("lib case");
             part1::run_lib(check, &case)
         }
+        "scale" => {
+            let case: scale::ScaleCase = serde_json::from_value(c["case"].clone()).expect("scale case");
+            scale::run(check, &case)
+        }
         k if part3::PARTS.contains(&k) => part3::replay(check, k, &c["case"]),
         k => {
             eprintln!("unknown replay part {k}");
@@ -191,7 +196,12 @@ fn main() {
          subset incl. names not in the archive, --skip-errors) plus a 16-case grid over version × compression; extracted files are \
          compared with the inputs. part 1b: library-built archives (shared ArchiveSpec generator: V1–V4, sector shifts 0–4, \
          encryption, CRCs, attributes, directory names with \\ and /) → list/info/tree vs Archive::list/get_info and extract vs \
-         Archive::read_file. part 2: every (sub-command template × base file × damage) of a deterministic grid (valid, truncated, \
+         Archive::read_file. part 1c (scale.rs): the size of the file set — 7 to 5200 files (thorough: to 20011), a 16-case grid at and \
+         around the counts where the tool and the library change their way of working (batch sizes 10 / 25, batched extraction above \
+         1000 names, larger batches above 5000; multiples and non-multiples of 1000) × origin (mpq create with flat names / \
+         library-built with directories) × bulk / every name / a shuffled share of the names on the command line × names not in the \
+         archive × threads × --preserve-paths × --skip-errors × stale targets; every requested file must be written bit-identically \
+         when the command exits 0, list/info must agree with the library. part 2: every (sub-command template × base file × damage) of a deterministic grid (valid, truncated, \
          byte-mutated, u32 field overwritten, garbage, garbage behind a valid magic, empty, nonexistent) plus proptest damage. \
          part 3 (output content): conv = every converting sub-command (m2 convert / skin-convert / anim-convert, wmo / adt / wdt / wdl \
          convert, blp convert both ways) × base files (part 2's plus seeded variants of every format) × every version name the help \
@@ -318,10 +328,20 @@ fn main() {
             }
         });
 
+        // ---- part 1c: size of the file set (counts around the tool's and the library's batching thresholds)
+        let gs = scale::grid(check.tier);
+        parallel_for(&gs, |c| {
+            let r = vcheck::engine::guard("scale-grid", || scale::run(&check, c)).and_then(|x| x);
+            if let Err(f) = r {
+                check.fail(&f, json!({"part": "scale", "case": c}));
+            }
+        });
+
         // ---- random volume
         let opts = || pt::Opts { max_shrink_iters: 60, ..pt::Opts::default() };
         pt::run(&check, "create-random", check.tier.pick(32, 1500), opts(), part1::create_strategy, |c| json!({"part": "create", "case": c}), |c| part1::run_create(&check, c));
         pt::run(&check, "lib-random", check.tier.pick(32, 1500), opts(), part1::lib_strategy, |c| json!({"part": "lib", "case": c}), |c| part1::run_lib(&check, c));
+        pt::run(&check, "scale-random", check.tier.pick(16, 320), pt::Opts { max_shrink_iters: 12, max_distinct: 1, ..pt::Opts::default() }, || scale::strategy(thorough), |c| json!({"part": "scale", "case": c}), |c| scale::run(&check, c));
         pt::run(&check, "status-random", check.tier.pick(160, 12000), opts(), || status_strategy(&tps), part2::case_json, |c| status_property(&check, &tps, c));
     }
 
@@ -347,6 +367,11 @@ fn main() {
     for must in ["list:name-longer-than-80", "extract:all", "extract:named", "extract:missing-noskip", "extract:missing-skip", "extract:preserve-dirs", "extract:preserve-dirs-in-two-letter-cases"] {
         if check.counter(must) == 0 {
             crate::inc(&check, &format!("no extraction case of class {must}"));
+        }
+    }
+    for must in scale::MUST {
+        if check.counter(must) == 0 {
+            crate::inc(&check, &format!("no many-files case of class {must}"));
         }
     }
     {
